@@ -1,7 +1,7 @@
 (* C08 — Mutable/immutable bit vectors behave as a sequence of bits under any history.
    Statements only, closed by [exact].  The abstraction bv_abs : bitvec -> list bool and the
    operation specifications op_spec are in Model/BitVec.v and Proofs/BitVecP.v. *)
-From QwtModel Require Import ListX Seq Consts Words BitVec BitsLib BitVecP.
+From QwtModel Require Import ListX Seq Loops Consts Words BitVec BitsLib BitVecP FnsBv FnsBvm FnsBvmOk.
 
 (* every reachable state: any finite history of push / append_bits / extend_with_zeros / set /
    set_bits / extend(bools) / extend(positions) whose arguments satisfy the documented
@@ -88,3 +88,33 @@ Print Assumptions C08_from_positions.
 Theorem C08_example : hist_ok [] ex_hist.
 Proof. exact ex_hist_ok. Qed.
 Print Assumptions C08_example.
+
+(* ---- the same statements about the functions REGENERATED from src/bitvector/mod.rs on every run (T5, Gen/FnsBvm.v,
+   Gen/FnsBv.v): BitVectorMut::{push, append_bits, extend_with_zeros, set, set_bits} as state transformers of the three
+   fields (data lines, n_bits, n_ones) and every observer.  [gstep]/[grun] dispatch a history to those generated
+   functions ([Extend<bool>] / [Extend<usize>] are loops of generated push / extend_with_zeros / set calls). *)
+Theorem C08_source_step : forall b o, bv_inv b -> op_pre (bv_abs b) o = true -> op_small (bv_abs b) o ->
+  exists b', gstep (fields b) o = Val (fields b') /\ bv_inv b' /\ bv_abs b' = op_spec (bv_abs b) o.
+Proof. exact g_step_correct. Qed.
+Print Assumptions C08_source_step.
+Theorem C08_source_step_panics : forall b o, bv_inv b -> op_typed o -> op_pre (bv_abs b) o = false ->
+  exists f, gstep (fields b) o = Fault f.
+Proof. exact g_step_panics. Qed.
+Print Assumptions C08_source_step_panics.
+Theorem C08_source_observers : forall b, bv_inv b -> gobs (fields b) (bv_abs b).
+Proof. exact g_observers_correct. Qed.
+Print Assumptions C08_source_observers.
+Theorem C08_source_get_bits : forall b i n, bv_inv b ->
+  g_bvm_get_bits (chunks 8 (bv_words b)) (bv_nbits b) i n =
+  Val (if (1 <=? n) && (n <=? 64) && (i + n <? len (bv_abs b))
+       then Some (bits_value (firstnN n (skipnN i (bv_abs b)))) else None).
+Proof. exact g_get_bits_correct. Qed.
+Print Assumptions C08_source_get_bits.
+Theorem C08_source_history : forall h, hist_ok [] h ->
+  exists s, grun gempty h = Val s /\ gobs s (fold_left op_spec h []).
+Proof. exact g_history_observed. Qed.
+Print Assumptions C08_source_history.
+Theorem C08_source_history_generated_only : forall h, Forall op_gen h -> hist_ok [] h ->
+  exists s, grun gempty h = Val s /\ gobs s (fold_left op_spec h []).
+Proof. exact g_history_generated_only. Qed.
+Print Assumptions C08_source_history_generated_only.
